@@ -10,7 +10,7 @@ Open Scope Z_scope.
 Record tobs := { o_score : Z; o_ret : val; o_look : list (list ckey * option Z) }.
 
 Definition look (c : chm) (p : list ckey) : option Z :=
-  match cvalue (csub_path c p) with Some (VZ z) => Some z | Some (VM true (VZ z)) => Some z | _ => None end.
+  match cget c p with Some (VZ z) => Some z | Some (VM true (VZ z)) => Some z | _ => None end.
 Definition optZ_eqb (a b : option Z) : bool :=
   match a, b with Some x, Some y => Z.eqb x y | None, None => true | _, _ => false end.
 Definition tobs_ok (t : trace) (o : tobs) : bool :=
@@ -18,8 +18,7 @@ Definition tobs_ok (t : trace) (o : tobs) : bool :=
   && forallb (fun pw => optZ_eqb (look (t_choices t) (fst pw)) (snd pw)) (o_look o).
 
 (* build a constraint / sample choice map from entries (path, value) *)
-Definition cbuild (es : list (list ckey * val)) : chm :=
-  fold_left (fun acc e => cmerge acc (cprefix (fst e) (CV (snd e)))) es CE.
+Definition cbuild (es : list (list ckey * val)) : chm := es.
 
 Inductive want (A : Type) := WOk (a : A) | WErr (e : err).
 Arguments WOk {A}. Arguments WErr {A}.
